@@ -22,6 +22,12 @@ func (x *Exec) stdlib(fr *Frame, ins ssa.Instruction, fn *ssa.Function, args []V
 		sb := x.bytesToStr(st, args[1].(*Term))
 		lt := x.strLt(sa, sb)
 		return ts.Ite(lt, ts.BV(^uint64(0), 64), ts.Ite(ts.Eq(sa, sb), ts.BV(0, 64), ts.BV(1, 64))), true
+	case "fmt.Errorf", "errors.New":
+		x.note("trusted: %s returns a non-nil error", name)
+		r := x.w.Fresh("err_"+fn.Name(), SIface)
+		x.assume(ts.Not(ts.Eq(r, x.w.ifaceNil())))
+		x.assume(ts.App("(_ is box_other)", SBool, r))
+		return r, true
 	case "sort.Search":
 		// r := sort.Search(n, f): f is called only with 0 <= i < n; on return
 		// 0 <= r <= n, (r < n ==> f(r)) and (r > 0 ==> !f(r-1)). (The stronger
